@@ -257,6 +257,15 @@ pub fn generate(seed: u64, n: usize, thorough: bool, _corpus: Option<&str>) -> V
             // a panic on an ill-formed model (C08's territory) is recorded in the distribution, not as a C04 violation
             for c in cases[before..].iter_mut() { c.impl_violation = None; c.sig = None; }
         }
+        if i % 10 == 7 {
+            let lm = gen_lp::permuted_domain(&mut r, i % 20 == 7);
+            solver_cases(&lm, &["permuted-domain-order".to_string()], "permuted-domain-order", &variants, &mut cases);
+        }
+        if i % 10 == 9 {
+            if let Some((lm, _)) = gen_lp::from_text(&mut r) {
+                solver_cases(&lm, &["text-pipeline-define-order".to_string()], "text-pipeline-define-order", &variants, &mut cases);
+            }
+        }
         if i % 10 == 0 {
             let lm = variable_free(&mut r);
             solver_cases(&lm, &["variable-free".to_string()], "variable-free", &variants, &mut cases);
